@@ -588,7 +588,7 @@ def _run_variant(args):
             elif kind == "rename-all":
                 open(path, "w").write(rename_all_locals(src))
                 applied += 1
-            elif kind == "silent-patch":
+            elif kind in ("silent-patch", "fire-patch"):
                 import subprocess
                 r = subprocess.run(["patch", "-p1", "-s", "-f", "-d", tmp, "-i", old], capture_output=True, text=True)
                 if r.returncode == 0:
@@ -642,6 +642,18 @@ def run_for(prop, mod, project):
             pf = os.path.join(sdir, name, "patch.diff")
             if os.path.exists(pf):
                 jobs.append((prop, root, "silent-patch", "patch:" + name, [("skactiveml/__init__.py", pf, None, 0)]))
+    # the seeded changes of /verif/seeded that the check of this property reported when they were
+    # confirmed (seeded/MATRIX.json) must still be reported: regression suite of real-looking breaks
+    seed_expected = {}
+    mfile = os.path.join(os.path.dirname(sdir), "seeded", "MATRIX.json")
+    if os.path.exists(mfile):
+        import json as _json
+        for ent in _json.load(open(mfile)):
+            pf = os.path.join(os.path.dirname(sdir), "seeded", ent["seed"], "patch.diff")
+            if ent.get("property") == prop and ent.get("status") == "reported" and os.path.exists(pf):
+                vid = "seed:" + ent["seed"]
+                seed_expected[vid] = ent.get("rules") or [""]
+                jobs.append((prop, root, "fire-patch", vid, [("skactiveml/__init__.py", pf, None, 0)]))
     jobs.append((prop, root, "rename", "rename-locals", [(rel, fn, None, 0) for rel, fn in RENAME_TARGETS]))
     allpy = []
     for dp, dn, fns in os.walk(os.path.join(root, PKG)):
@@ -654,6 +666,7 @@ def run_for(prop, mod, project):
     with ProcessPoolExecutor(max_workers=min(16, max(1, len(jobs)))) as ex:
         results = list(ex.map(_run_variant, jobs))
     expected = {s[0]: s[2] for s in MUST_FIRE}
+    expected.update(seed_expected)
     killed = silent_ok = skipped = 0
     failures = []
     details = []
@@ -663,7 +676,7 @@ def run_for(prop, mod, project):
             details.append({"variant": vid, "kind": kind, "result": "skipped (anchor text not in the current tree)"})
             continue
         if status == "analysis-error":
-            if kind == "fire":
+            if kind in ("fire", "fire-patch"):
                 # a vanished anchor reported as analysis error still means the edit was noticed
                 killed += 1
                 details.append({"variant": vid, "kind": kind, "result": "analysis-error (fail-closed): " + v[0][:120]})
@@ -671,7 +684,7 @@ def run_for(prop, mod, project):
                 failures.append(f"silent variant {vid} made the analysis fail: {v[0][:160]}")
             continue
         new = [k for k in v if tuple(k) not in base]
-        if kind == "fire":
+        if kind in ("fire", "fire-patch"):
             hit = [k for k in new if any(k[0].startswith(r) for r in expected[vid])]
             if hit:
                 killed += 1
@@ -684,8 +697,10 @@ def run_for(prop, mod, project):
             else:
                 silent_ok += 1
                 details.append({"variant": vid, "kind": kind, "result": "silent"})
-    out = {"variants": len(results), "must_fire": sum(1 for j in jobs if j[2] == "fire"), "killed": killed,
-           "silent_variants": sum(1 for j in jobs if j[2] != "fire"), "silent_ok": silent_ok, "skipped": skipped, "details": details}
+    out = {"variants": len(results), "must_fire": sum(1 for j in jobs if j[2] in ("fire", "fire-patch")), "killed": killed,
+           "seeded_changes_replayed": sum(1 for j in jobs if j[2] == "fire-patch"),
+           "silent_variants": sum(1 for j in jobs if j[2] not in ("fire", "fire-patch")), "silent_ok": silent_ok, "skipped": skipped,
+           "details": details}
     if failures:
         raise AnalysisError("checker self-test failed: " + " | ".join(failures))
     return out
